@@ -370,7 +370,7 @@ func (p *ProposalLab) byzantineCommit(c *Chain, req *abci.RequestProcessProposal
 		m.OracleAttestations.Attestations = append(m.OracleAttestations.Attestations, ext.OracleAttestations[0].Attestation)
 		m.OracleAttestations.Snapshots = append(m.OracleAttestations.Snapshots, ext.OracleAttestations[0].Snapshot)
 	default:
-		if evm, err := c.App.BridgeKeeper.EVMAddressFromSignatures(ctx, ext.InitialSignature.SignatureA, ext.InitialSignature.SignatureB); err == nil {
+		if evm, ok := ownEVMAddressFromSignatures(ext.InitialSignature.SignatureA, ext.InitialSignature.SignatureB); ok {
 			m.OpAndEVMAddrs.OperatorAddresses = append(m.OpAndEVMAddrs.OperatorAddresses, victim)
 			m.OpAndEVMAddrs.EVMAddresses = append(m.OpAndEVMAddrs.EVMAddresses, evm.Hex())
 		}
